@@ -63,6 +63,11 @@ def run_case(case):
         try:
             with open(os.path.join(d, 'mod.py'), 'wb') as f:
                 f.write(src)
+            if mode in ('output', 'stdin_output') and case.get('stale_output', True):
+                # an earlier, longer result is already at the --output path: it must be replaced, not overwritten in part
+                with open(os.path.join(d, 'out.py'), 'wb') as f:
+                    f.write(b'# stale content of an earlier run ' + b'#' * (len(src) + 160) + b'\n')
+                res['counters']['stale_output_files'] = res['counters'].get('stale_output_files', 0) + 1
             argv = list(flags)
             stdin = None
             if mode == 'stdout':
